@@ -1063,123 +1063,10 @@ theorem csLoop_within (ops : Ops α B) (law : Law ops) (env : Env α) (fraction 
                     · exact ih _ _ _ _ _ _ _ hw' hr' hn' h
                     · exact ih _ _ _ _ _ _ _ hw' hr' hn' h
 
-theorem dcOnSchedule_within (ops : Ops α B) (law : Law ops) (env : Env α) (w : SWorld α B)
-    (st : CState α) (p : α) (g0 : GcS α) (r : SWorld α B × CState α × List (String × α))
-    (hw : Within w) (hn : NoV2G w) (hg : w.gcs = [g0])
-    (hT : ∀ x target, getGx env g0.id = .ok x → x.target = some target →
-      target + max st.batPower 0 ≤ g0.curMax)
-    (h : dcOnSchedule ops env w st p = .ok r) : Within r.1 ∧ NoV2G r.1 := by
-  unfold dcOnSchedule at h
-  have hfirst : firstGcId w = .ok g0.id := by unfold firstGcId; rw [hg]
-  simp only [hfirst] at h
-  split at h
-  · cases h
-  · rename_i gc hgc
-    obtain ⟨hgm, hgid⟩ := getGc_ok _ _ _ hgc
-    have hgc0 : gc = g0 := by rw [hg] at hgm; simpa using hgm
-    subst hgc0
-    split at h
-    · cases h
-    · rename_i x hx
-      split at h
-      · cases h
-      · rename_i remaining hrem
-        split at h
-        · cases h
-        · rename_i res hres
-          simp only [Except.ok.injEq] at h; subst h
-          have hroom : Room gc.id remaining w := by
-            split at hrem
-            · split at hrem <;> cases hrem
-            · rename_i target htarget
-              unfold dcRemaining at hrem
-              split at hrem
-              · cases hrem
-              · rename_i avails _
-                simp only [Except.ok.injEq] at hrem
-                subst hrem
-                intro g hgm' _
-                have hgg : g = gc := by rw [hg] at hgm'; simpa using hgm'
-                subst hgg
-                have h1 := hT x target hx htarget
-                have h2 := (hw g hgm).2
-                rw [pymin_eq]
-                have h3 : min st.batPower (ops.sum avails / env.tsPerHour) ≤ max st.batPower 0 :=
-                  le_trans (min_le_left _ _) (le_max_left _ _)
-                rcases le_total (target - g.currentLoad + min st.batPower (ops.sum avails / env.tsPerHour)) 0
-                  with hc | hc
-                · rw [max_eq_right hc]; linarith
-                · rw [max_eq_left hc]; linarith
-          exact csLoop_within ops law env _ _ gc.id _ _ _ _ _ _ w [] res hw hroom hn hres
-
 theorem noV2G_any (w : SWorld α B) (h : NoV2G w) : w.vehicles.any (·.v2g) = false := by
   rw [List.any_eq_false]
   intro v hv
   simp [h v hv]
-
-theorem duringCst_onSchedule_within (ops : Ops α B) (law : Law ops) (env : Env α) (w : SWorld α B)
-    (st : CState α) (p : α) (rest : List α) (g0 : GcS α)
-    (r : SWorld α B × CState α × List (String × α))
-    (hw : Within w) (hn : NoV2G w) (hg : w.gcs = [g0]) (hp : st.powerPerTS = p :: rest)
-    (hpe : ¬ p < env.eps)
-    (hT : ∀ x target, getGx env g0.id = .ok x → x.target = some target →
-      target + max st.batPower 0 ≤ g0.curMax)
-    (h : duringCst ops env w st = .ok r) : Within r.1 ∧ NoV2G r.1 := by
-  unfold duringCst at h
-  split at h
-  · cases h
-  · simp only [hp, hpe, if_false] at h
-    split at h
-    · cases h
-    · rename_i r1 hr1
-      simp only [Except.ok.injEq] at h; subst h
-      exact dcOnSchedule_within ops law env w { st with powerPerTS := rest } p g0 r1 hw hn hg hT hr1
-
-/-- inside the core standing time, on-schedule branch, no V2G-capable vehicle -/
-theorem step_collective_core_within (ops : Ops α B) (law : Law ops) (env : Env α)
-    (heps : 0 ≤ env.eps) (hc : env.collective = true)
-    (hin : dtWithinCoreStandingTime env.now env.cst = .ok true)
-    (w w' : SWorld α B) (st st1 st' : CState α) (cmds : List (String × α)) (g0 : GcS α)
-    (p : α) (rest : List α)
-    (hst1 : (st.inCst = true ∧ st1 = st) ∨
-      (st.inCst = false ∧ evaluate ops env (resetStations w) st = .ok st1))
-    (hp : st1.powerPerTS = p :: rest) (hpe : ¬ p < env.eps)
-    (hg : w.gcs = [g0]) (hn : NoV2G w)
-    (hT : ∀ x target, getGx env g0.id = .ok x → x.target = some target →
-      target + max st1.batPower 0 ≤ g0.curMax)
-    (hw : Within w) (h : step ops env w st = .ok (w', st', cmds)) : Within w' := by
-  unfold step at h
-  simp only [hc, if_true, hin, bind, Except.bind, pure, Except.pure] at h
-  have hw0 : Within (resetStations w) := by intro g hgm; exact hw g (by simpa using hgm)
-  have hn0 : NoV2G (resetStations w) := hn
-  have hg0 : (resetStations w).gcs = [g0] := hg
-  split at h
-  · cases h
-  · rename_i r hr
-    have hwr : Within r.1 := by
-      have key : ∀ r2, duringCst ops env (resetStations w) st1 = .ok r2 → Within r2.1 ∧ NoV2G r2.1 :=
-        fun r2 h2 => duringCst_onSchedule_within ops law env _ st1 p rest g0 r2 hw0 hn0 hg0 hp hpe hT h2
-      rcases hst1 with ⟨hi, rfl⟩ | ⟨hi, hev⟩
-      · simp only [hi, if_true] at hr
-        split at hr
-        · cases hr
-        · rename_i r2 hr2
-          obtain ⟨k1, k2⟩ := key r2 hr2
-          simp only [noV2G_any r2.1 k2, Bool.false_eq_true, if_false, Except.ok.injEq] at hr
-          subst hr; exact k1
-      · simp only [hi, Bool.false_eq_true, if_false, hev] at hr
-        split at hr
-        · cases hr
-        · rename_i r2 hr2
-          obtain ⟨k1, k2⟩ := key r2 hr2
-          simp only [noV2G_any r2.1 k2, Bool.false_eq_true, if_false, Except.ok.injEq] at hr
-          subst hr; exact k1
-    split at h
-    · cases h
-    · rename_i w2 hw2
-      simp only [Except.ok.injEq, Prod.mk.injEq] at h
-      obtain ⟨rfl, _, _⟩ := h
-      exact utilizeBatteries_within ops law env heps r.1 w2 hwr hw2
 
 /-! ### stations in the collective sub-strategy (one connector) -/
 
@@ -1433,7 +1320,7 @@ theorem excessVehicle_sinv (ops : Ops α B) (law : Law ops) (env : Env α) (heps
                 obtain ⟨b', avg, sd⟩ := r
                 obtain ⟨h0, h1⟩ := law.load_target _ _ _ _ _ _ hr
                 subst hcsid
-                have hst := simBalanced_station ops env heps cs v x dt x.curveMax (some kv.2) power
+                have hst := simBalanced_station ops env heps cs v x dt _ (some kv.2) power
                   (hS.2.1 cs hcsm).2 hpow
                 exact sinv_commit G st.1 st.2.2 v b' cs gc avg hS (getVehicle_ok _ _ _ hv) hcsm
                   (getGc_ok _ _ _ hgc).1 h0 (by linarith)
@@ -1903,75 +1790,6 @@ theorem csLoop_within' (ops : Ops α B) (law : Law ops) (env : Env α) (P : Stri
                     · exact ih _ _ _ _ _ _ _ hw' hr' hm' h
                     · exact ih _ _ _ _ _ _ _ hw' hr' hm' h
 
-theorem dcOnSchedule_within' (ops : Ops α B) (law : Law ops) (env : Env α) (P : String → α → Prop)
-    (w : SWorld α B)
-    (st : CState α) (p : α) (g0 : GcS α) (r : SWorld α B × CState α × List (String × α))
-    (hw : Within w) (hm : Meta P w) (hg : w.gcs = [g0])
-    (hT : ∀ x target, getGx env g0.id = .ok x → x.target = some target →
-      target + max st.batPower 0 ≤ g0.curMax)
-    (h : dcOnSchedule ops env w st p = .ok r) : Within r.1 ∧ Meta P r.1 := by
-  unfold dcOnSchedule at h
-  have hfirst : firstGcId w = .ok g0.id := by unfold firstGcId; rw [hg]
-  simp only [hfirst] at h
-  split at h
-  · cases h
-  · rename_i gc hgc
-    obtain ⟨hgm, hgid⟩ := getGc_ok _ _ _ hgc
-    have hgc0 : gc = g0 := by rw [hg] at hgm; simpa using hgm
-    subst hgc0
-    split at h
-    · cases h
-    · rename_i x hx
-      split at h
-      · cases h
-      · rename_i remaining hrem
-        split at h
-        · cases h
-        · rename_i res hres
-          simp only [Except.ok.injEq] at h; subst h
-          have hroom : Room gc.id remaining w := by
-            split at hrem
-            · split at hrem <;> cases hrem
-            · rename_i target htarget
-              unfold dcRemaining at hrem
-              split at hrem
-              · cases hrem
-              · rename_i avails _
-                simp only [Except.ok.injEq] at hrem
-                subst hrem
-                intro g hgm' _
-                have hgg : g = gc := by rw [hg] at hgm'; simpa using hgm'
-                subst hgg
-                have h1 := hT x target hx htarget
-                have h2 := (hw g hgm).2
-                rw [pymin_eq]
-                have h3 : min st.batPower (ops.sum avails / env.tsPerHour) ≤ max st.batPower 0 :=
-                  le_trans (min_le_left _ _) (le_max_left _ _)
-                rcases le_total (target - g.currentLoad + min st.batPower (ops.sum avails / env.tsPerHour)) 0
-                  with hc | hc
-                · rw [max_eq_right hc]; linarith
-                · rw [max_eq_left hc]; linarith
-          exact csLoop_within' ops law env P _ _ gc.id _ _ _ _ _ _ w [] res hw hroom hm hres
-
-theorem duringCst_onSchedule_within' (ops : Ops α B) (law : Law ops) (env : Env α)
-    (P : String → α → Prop) (w : SWorld α B)
-    (st : CState α) (p : α) (rest : List α) (g0 : GcS α)
-    (r : SWorld α B × CState α × List (String × α))
-    (hw : Within w) (hm : Meta P w) (hg : w.gcs = [g0]) (hp : st.powerPerTS = p :: rest)
-    (hpe : ¬ p < env.eps)
-    (hT : ∀ x target, getGx env g0.id = .ok x → x.target = some target →
-      target + max st.batPower 0 ≤ g0.curMax)
-    (h : duringCst ops env w st = .ok r) : Within r.1 ∧ Meta P r.1 := by
-  unfold duringCst at h
-  split at h
-  · cases h
-  · simp only [hp, hpe, if_false] at h
-    split at h
-    · cases h
-    · rename_i r1 hr1
-      simp only [Except.ok.injEq] at h; subst h
-      exact dcOnSchedule_within' ops law env P w { st with powerPerTS := rest } p g0 r1 hw hm hg hT hr1
-
 /-- only the upper half of the limit -/
 def Upper (w : SWorld α B) : Prop := ∀ g ∈ w.gcs, g.currentLoad ≤ g.curMax
 
@@ -2085,96 +1903,6 @@ theorem v2gApply_upper (ops : Ops α B) (law : Law ops) (env : Env α) (chargeNo
       · intro g hgm
         exact meta_setGc_addLoad P w gc hg csId (-res.2) hm g hgm
 
-theorem v2gVehicle_upper (ops : Ops α B) (law : Law ops) (env : Env α) (heps : 0 ≤ env.eps)
-    (gid : String) (chargeNow : Bool) (chargeWindow : List Bool) (issues : List String)
-    (st st' : SWorld α B × List (String × α) × Option α) (vid : String)
-    (hu : Upper st.1) (hm : Meta (TargetFits env gid) st.1)
-    (h : v2gVehicle ops env gid chargeNow chargeWindow issues st vid = .ok st') :
-    Upper st'.1 ∧ Meta (TargetFits env gid) st'.1 := by
-  unfold v2gVehicle at h
-  split at h
-  · simp only [Except.ok.injEq] at h; subst h; exact ⟨hu, hm⟩
-  · split at h
-    · cases h
-    · rename_i v _
-      split at h
-      · cases h
-      · rename_i csId _
-        split at h
-        · cases h
-        · rename_i cs _
-          split at h
-          · cases h
-          · simp only at h
-            split at h
-            · cases h
-            · rename_i gc hgc
-              obtain ⟨hgm, hgid⟩ := getGc_ok _ _ _ hgc
-              split at h
-              · cases h
-              · rename_i dl _
-                split at h
-                · cases h
-                · simp only [Except.ok.injEq] at h; subst h; exact ⟨hu, hm⟩
-                · rename_i target htarget
-                  -- the target the pass read
-                  have hx : ∃ x, getGx env gid = .ok x ∧ x.target = some target := by
-                    split at htarget
-                    · cases htarget
-                    · cases htarget
-                    · split at htarget
-                      · cases htarget
-                      · rename_i x hx
-                        split at htarget
-                        · cases htarget
-                        · rename_i t ht
-                          simp only [Except.ok.injEq, Option.some.injEq] at htarget
-                          subst htarget
-                          exact ⟨x, hx, ht⟩
-                  obtain ⟨x, hx1, hx2⟩ := hx
-                  have hT : target ≤ gc.curMax := hm gc hgm hgid x target hx1 hx2
-                  split at h
-                  · cases h
-                  · rename_i total htot
-                    split at h
-                    · cases h
-                    · rename_i r hr
-                      simp only [Except.ok.injEq] at h; subst h
-                      refine v2gApply_upper ops law env chargeNow st.1 st.2.1 v cs gc hgm csId _ dl total
-                        target r _ hu hm hT ?_ hr
-                      intro hcn
-                      subst hcn
-                      exact v2gTotal_le ops env heps chargeWindow cs v _ _ _ dl total htot
-
-theorem v2gCst_upper (ops : Ops α B) (law : Law ops) (env : Env α) (heps : 0 ≤ env.eps)
-    (w : SWorld α B) (st : CState α) (cmds : List (String × α)) (g0 : GcS α)
-    (r : SWorld α B × CState α × List (String × α)) (hg : ∀ g ∈ w.gcs, g.id = g0.id)
-    (hu : Upper w) (hm : Meta (TargetFits env g0.id) w)
-    (h : v2gCst ops env w st cmds = .ok r) : Upper r.1 := by
-  unfold v2gCst at h
-  simp only [bind, Except.bind] at h
-  split at h
-  · cases h
-  · rename_i gid hgid
-    have hgid' : gid = g0.id := by
-      unfold firstGcId at hgid
-      split at hgid
-      · rename_i g rest hgs
-        simp only [Except.ok.injEq] at hgid
-        rw [← hgid]; exact hg g (by rw [hgs]; simp)
-      · cases hgid
-    subst hgid'
-    split at h
-    · cases h
-    · split at h
-      · cases h
-      · rename_i r2 hr2
-        simp only [Except.ok.injEq] at h; subst h
-        exact (foldlM_within (v2gVehicle ops env g0.id _ _ _)
-          (fun s => Upper s.1 ∧ Meta (TargetFits env g0.id) s.1)
-          (fun s s' b hs hb => v2gVehicle_upper ops law env heps g0.id _ _ _ s s' b hs.1 hs.2 hb)
-          _ (w, cmds, none) r2 ⟨hu, hm⟩ hr2).1
-
 theorem utilBattery_upper (ops : Ops α B) (law : Law ops) (env : Env α) (heps : 0 ≤ env.eps)
     (w w' : SWorld α B) (b0 : StatBatS α B) (hw : Upper w)
     (h : utilBattery ops env w b0 = .ok w') : Upper w' := by
@@ -2233,76 +1961,246 @@ theorem utilizeBatteries_upper (ops : Ops α B) (law : Law ops) (env : Env α) (
   exact foldlM_within (utilBattery ops env) Upper
     (fun s s' b hs hb => utilBattery_upper ops law env heps s s' b hs hb) _ w w' hw h
 
-/-- inside the core standing time, on-schedule branch, V2G-capable vehicles allowed: the draw
-direction of the limit -/
-theorem step_collective_core_upper (ops : Ops α B) (law : Law ops) (env : Env α)
+/-! ### inside the core standing time after the repairs SCH2 / SCH3
+
+The excess branch searches below the connector headroom (SCH2); the on-schedule branch starts from
+`min(target − load + battery support, cur_max_power − load)` and a V2G charge window is bounded by
+`min(target, cur_max_power) − load` (SCH3). -/
+
+/-- "no V2G vehicle" as an optional part of an invariant -/
+def VInv (b : Bool) (w : SWorld α B) : Prop := b = true → NoV2G w
+
+theorem vinv_commit (b : Bool) (w : SWorld α B) (cmds : List (String × α)) (v : VehicleS α B)
+    (bat' : B) (cs : StationS α) (gc : GcS α) (csId : String) (avg : α) (hv : v ∈ w.vehicles)
+    (h : VInv b w) : VInv b (commit w cmds v bat' cs gc csId avg).1 :=
+  fun hb => noV2G_commit w cmds v bat' cs gc csId avg hv (h hb)
+
+theorem excessVehicle_within (ops : Ops α B) (law : Law ops) (env : Env α) (heps : 0 ≤ env.eps)
+    (b : Bool) (dt : Int) (st st' : SWorld α B × List (String × α) × List (String × α))
+    (kv : String × α) (hw : Within st.1) (hn : VInv b st.1)
+    (h : excessVehicle ops env dt st kv = .ok st') : Within st'.1 ∧ VInv b st'.1 := by
+  unfold excessVehicle at h
+  simp only [bind, Except.bind] at h
+  split at h
+  · cases h
+  · rename_i v hv
+    split at h
+    · simp only [Except.ok.injEq] at h; subst h; exact ⟨hw, hn⟩
+    · split at h
+      · cases h
+      · rename_i cs hcs
+        split at h
+        · cases h
+        · rename_i gc hgc
+          obtain ⟨hgm, _⟩ := getGc_ok _ _ _ hgc
+          split at h
+          · cases h
+          · rename_i x _
+            split at h
+            · cases h
+            · rename_i power hpow
+              split at h
+              · cases h
+              · rename_i r hr
+                simp only [Except.ok.injEq] at h; subst h
+                obtain ⟨b', avg, sd⟩ := r
+                obtain ⟨h0, h1⟩ := law.load_target _ _ _ _ _ _ hr
+                have hp := simBalanced_le ops env heps _ _ _ _ _ _ _ hpow
+                have hb : avg ≤ max (gc.curMax - gc.currentLoad) 0 :=
+                  le_trans h1 (max_le hp (le_max_right _ _))
+                exact ⟨within_commit st.1 st.2.2 v b' cs gc hgm _ avg hw h0 hb,
+                  vinv_commit b st.1 st.2.2 v b' cs gc _ avg (getVehicle_ok _ _ _ hv) hn⟩
+
+theorem csLoop_withinV (ops : Ops α B) (law : Law ops) (env : Env α) (b : Bool) (fraction : α)
+    (nVeh : Nat) (gid : String) (fuel i : Nat) (q lo : List (String × α)) (extra rem : α)
+    (w : SWorld α B) (cmds : List (String × α)) (r : SWorld α B × List (String × α))
+    (hw : Within w) (hr : Room gid rem w) (hn : VInv b w)
+    (h : csLoop ops env fraction nVeh gid fuel i q lo extra rem w cmds = .ok r) :
+    Within r.1 ∧ VInv b r.1 := by
+  cases b with
+  | true =>
+    obtain ⟨k1, k2⟩ := csLoop_within ops law env fraction nVeh gid fuel i q lo extra rem w cmds r hw hr
+      (hn rfl) h
+    exact ⟨k1, fun _ => k2⟩
+  | false =>
+    exact ⟨(csLoop_within' ops law env (fun _ _ => True) fraction nVeh gid fuel i q lo extra rem w cmds r
+      hw hr (fun _ _ => trivial) h).1, fun hb => by cases hb⟩
+
+theorem dcOnSchedule_within (ops : Ops α B) (law : Law ops) (env : Env α) (b : Bool) (w : SWorld α B)
+    (st : CState α) (p : α) (g0 : GcS α) (r : SWorld α B × CState α × List (String × α))
+    (hw : Within w) (hn : VInv b w) (hg : w.gcs = [g0])
+    (h : dcOnSchedule ops env w st p = .ok r) : Within r.1 ∧ VInv b r.1 := by
+  unfold dcOnSchedule at h
+  have hfirst : firstGcId w = .ok g0.id := by unfold firstGcId; rw [hg]
+  simp only [hfirst] at h
+  split at h
+  · cases h
+  · rename_i gc hgc
+    obtain ⟨hgm, hgid⟩ := getGc_ok _ _ _ hgc
+    have hgc0 : gc = g0 := by rw [hg] at hgm; simpa using hgm
+    subst hgc0
+    split at h
+    · cases h
+    · rename_i x hx
+      split at h
+      · cases h
+      · rename_i remaining hrem
+        split at h
+        · cases h
+        · rename_i res hres
+          simp only [Except.ok.injEq] at h; subst h
+          have hroom : Room gc.id remaining w := by
+            split at hrem
+            · split at hrem <;> cases hrem
+            · rename_i target htarget
+              unfold dcRemaining at hrem
+              split at hrem
+              · cases hrem
+              · rename_i avails _
+                simp only [Except.ok.injEq] at hrem
+                subst hrem
+                intro g hgm' _
+                have hgg : g = gc := by rw [hg] at hgm'; simpa using hgm'
+                subst hgg
+                have h2 := (hw g hgm).2
+                rw [pymin_eq]
+                have h3 : max (min (target - g.currentLoad + pymin st.batPower (ops.sum avails / env.tsPerHour))
+                    (g.curMax - g.currentLoad)) 0 ≤ g.curMax - g.currentLoad :=
+                  max_le (min_le_right _ _) (by linarith)
+                linarith
+          exact csLoop_withinV ops law env b _ _ gc.id _ _ _ _ _ _ w [] res hw hroom hn hres
+
+/-- **the vehicle pass of the core standing time keeps the connector within its limit** — both
+branches (repaired code), single connector -/
+theorem duringCst_within (ops : Ops α B) (law : Law ops) (env : Env α) (heps : 0 ≤ env.eps) (b : Bool)
+    (w : SWorld α B) (st : CState α) (g0 : GcS α) (r : SWorld α B × CState α × List (String × α))
+    (hw : Within w) (hn : VInv b w) (hg : w.gcs = [g0])
+    (h : duringCst ops env w st = .ok r) : Within r.1 ∧ VInv b r.1 := by
+  unfold duringCst at h
+  split at h
+  · cases h
+  · simp only at h
+    split at h
+    · cases h
+    · split at h
+      · cases h
+      · rename_i r1 hr1
+        simp only [Except.ok.injEq] at h; subst h
+        simp only
+        split at hr1
+        · unfold dcExcess at hr1
+          simp only at hr1
+          split at hr1
+          · cases hr1
+          · rename_i r2 hr2
+            simp only [Except.ok.injEq] at hr1; subst hr1
+            exact foldlM_within (excessVehicle ops env _) (fun s => Within s.1 ∧ VInv b s.1)
+              (fun s s' kv hs hb => excessVehicle_within ops law env heps b _ s s' kv hs.1 hs.2 hb)
+              _ _ r2 ⟨hw, hn⟩ hr2
+        · exact dcOnSchedule_within ops law env b w _ _ g0 r1 hw hn hg hr1
+
+theorem v2gVehicle_upper (ops : Ops α B) (law : Law ops) (env : Env α) (heps : 0 ≤ env.eps)
+    (gid : String) (chargeNow : Bool) (chargeWindow : List Bool) (issues : List String)
+    (st st' : SWorld α B × List (String × α) × Option α) (vid : String) (hu : Upper st.1)
+    (h : v2gVehicle ops env gid chargeNow chargeWindow issues st vid = .ok st') : Upper st'.1 := by
+  unfold v2gVehicle at h
+  split at h
+  · simp only [Except.ok.injEq] at h; subst h; exact hu
+  · split at h
+    · cases h
+    · rename_i v _
+      split at h
+      · cases h
+      · rename_i csId _
+        split at h
+        · cases h
+        · rename_i cs _
+          split at h
+          · cases h
+          · simp only at h
+            split at h
+            · cases h
+            · rename_i gc hgc
+              obtain ⟨hgm, _⟩ := getGc_ok _ _ _ hgc
+              split at h
+              · cases h
+              · rename_i dl _
+                split at h
+                · cases h
+                · simp only [Except.ok.injEq] at h; subst h; exact hu
+                · rename_i target _
+                  split at h
+                  · cases h
+                  · rename_i total htot
+                    split at h
+                    · cases h
+                    · rename_i r hr
+                      simp only [Except.ok.injEq] at h; subst h
+                      refine (v2gApply_upper ops law env chargeNow st.1 st.2.1 v cs gc hgm csId _ dl total
+                        (pymin target gc.curMax) r (fun _ _ => True) hu (fun _ _ => trivial)
+                        (by rw [pymin_eq]; exact min_le_right _ _) ?_ hr).1
+                      intro hcn
+                      subst hcn
+                      simp only [if_true] at htot
+                      exact v2gTotal_le ops env heps chargeWindow cs v _ _ _ dl total htot
+
+theorem v2gCst_upper (ops : Ops α B) (law : Law ops) (env : Env α) (heps : 0 ≤ env.eps)
+    (w : SWorld α B) (st : CState α) (cmds : List (String × α))
+    (r : SWorld α B × CState α × List (String × α)) (hu : Upper w)
+    (h : v2gCst ops env w st cmds = .ok r) : Upper r.1 := by
+  unfold v2gCst at h
+  simp only [bind, Except.bind] at h
+  split at h
+  · cases h
+  · split at h
+    · cases h
+    · split at h
+      · cases h
+      · rename_i r2 hr2
+        simp only [Except.ok.injEq] at h; subst h
+        exact foldlM_within (v2gVehicle ops env _ _ _ _) (fun s => Upper s.1)
+          (fun s s' b hs hb => v2gVehicle_upper ops law env heps _ _ _ _ s s' b hs hb)
+          _ (w, cmds, none) r2 hu hr2
+
+/-- collective sub-strategy inside the core standing time (repaired code), one connector: both
+bounds when no vehicle is V2G-capable (`b = true`), the draw bound in any case -/
+theorem step_collective_core (ops : Ops α B) (law : Law ops) (env : Env α)
     (heps : 0 ≤ env.eps) (hc : env.collective = true)
-    (hin : dtWithinCoreStandingTime env.now env.cst = .ok true)
-    (w w' : SWorld α B) (st st1 st' : CState α) (cmds : List (String × α)) (g0 : GcS α)
-    (p : α) (rest : List α)
-    (hst1 : (st.inCst = true ∧ st1 = st) ∨
-      (st.inCst = false ∧ evaluate ops env (resetStations w) st = .ok st1))
-    (hp : st1.powerPerTS = p :: rest) (hpe : ¬ p < env.eps)
-    (hg : w.gcs = [g0])
-    (hT : ∀ x target, getGx env g0.id = .ok x → x.target = some target →
-      target + max st1.batPower 0 ≤ g0.curMax)
-    (hw : Within w) (h : step ops env w st = .ok (w', st', cmds)) : Upper w' := by
+    (hin : dtWithinCoreStandingTime env.now env.cst = .ok true) (b : Bool)
+    (w w' : SWorld α B) (st st' : CState α) (cmds : List (String × α)) (g0 : GcS α)
+    (hg : w.gcs = [g0]) (hn : VInv b w) (hw : Within w)
+    (h : step ops env w st = .ok (w', st', cmds)) : Upper w' ∧ (b = true → Within w') := by
   unfold step at h
   simp only [hc, if_true, hin, bind, Except.bind, pure, Except.pure] at h
   have hw0 : Within (resetStations w) := by intro g hgm; exact hw g (by simpa using hgm)
+  have hn0 : VInv b (resetStations w) := hn
   have hg0 : (resetStations w).gcs = [g0] := hg
-  set P : String → α → Prop := fun id cm => id = g0.id ∧ TargetFits env g0.id id cm with hP
-  have hm0 : Meta P (resetStations w) := by
-    intro g hgm
-    rw [hg0] at hgm
-    have : g = g0 := by simpa using hgm
-    subst this
-    refine ⟨rfl, ?_⟩
-    intro _ x t hx ht
-    have := hT x t hx ht
-    have h0 : (0 : α) ≤ max st1.batPower 0 := le_max_right _ _
-    linarith
   split at h
   · cases h
   · rename_i r hr
-    have hur : Upper r.1 := by
-      have key : ∀ r2, duringCst ops env (resetStations w) st1 = .ok r2 → Within r2.1 ∧ Meta P r2.1 :=
-        fun r2 h2 => duringCst_onSchedule_within' ops law env P _ st1 p rest g0 r2 hw0 hm0 hg0 hp hpe hT h2
-      rcases hst1 with ⟨hi, rfl⟩ | ⟨hi, hev⟩
-      · simp only [hi, if_true] at hr
+    have hur : Upper r.1 ∧ (b = true → Within r.1) := by
+      split at hr
+      · cases hr
+      · rename_i st1 _
         split at hr
         · cases hr
         · rename_i r2 hr2
-          obtain ⟨k1, k2⟩ := key r2 hr2
+          obtain ⟨k1, k2⟩ := duringCst_within ops law env heps b _ st1 g0 r2 hw0 hn0 hg0 hr2
           split at hr
-          · split at hr
-            · cases hr
-            · rename_i r3 hr3
-              simp only [Except.ok.injEq] at hr; subst hr
-              exact v2gCst_upper ops law env heps r2.1 r2.2.1 r2.2.2 g0 r3 (fun g hg => (k2 g hg).1)
-                (fun g hg => (k1 g hg).2) (fun g hg => (k2 g hg).2) hr3
+          · rename_i hany
+            refine ⟨v2gCst_upper ops law env heps r2.1 r2.2.1 r2.2.2 r (fun g hg => (k1 g hg).2) hr, ?_⟩
+            intro hb
+            rw [noV2G_any r2.1 (k2 hb)] at hany
+            cases hany
           · simp only [Except.ok.injEq] at hr; subst hr
-            exact fun g hg => (k1 g hg).2
-      · simp only [hi, Bool.false_eq_true, if_false, hev] at hr
-        split at hr
-        · cases hr
-        · rename_i r2 hr2
-          obtain ⟨k1, k2⟩ := key r2 hr2
-          split at hr
-          · split at hr
-            · cases hr
-            · rename_i r3 hr3
-              simp only [Except.ok.injEq] at hr; subst hr
-              exact v2gCst_upper ops law env heps r2.1 r2.2.1 r2.2.2 g0 r3 (fun g hg => (k2 g hg).1)
-                (fun g hg => (k1 g hg).2) (fun g hg => (k2 g hg).2) hr3
-          · simp only [Except.ok.injEq] at hr; subst hr
-            exact fun g hg => (k1 g hg).2
+            exact ⟨fun g hg => (k1 g hg).2, fun _ => k1⟩
     split at h
     · cases h
     · rename_i w2 hw2
       simp only [Except.ok.injEq, Prod.mk.injEq] at h
       obtain ⟨rfl, _, _⟩ := h
-      exact utilizeBatteries_upper ops law env heps r.1 w2 hur hw2
+      exact ⟨utilizeBatteries_upper ops law env heps r.1 w2 hur.1 hw2,
+        fun hb => utilizeBatteries_within ops law env heps r.1 w2 (hur.2 hb) hw2⟩
 
 /-! ### a small exact battery for the non-vacuity examples -/
 
